@@ -1,7 +1,6 @@
 //! Adapters from the line protocol to the real public types of /repo.
 //! Every adapter method calls the public API of the crate under test and nothing else.
 
-use crate::toy::Toy;
 use cipher::{
     AlgorithmName, AsyncStreamCipher, Block, BlockCipherDecrypt, BlockCipherEncrypt,
     BlockModeDecrypt, BlockModeEncrypt, BlockSizeUser, InnerIvInit, IvState, KeyInit, KeyIvInit,
@@ -71,6 +70,115 @@ fn blocks_ref<N: ArraySize>(buf: &[u8]) -> &[Array<u8, N>] {
 }
 
 // ------------------------------------------------------------------------------------------------
+// caller-written closures for `encrypt_with_backend` / `decrypt_with_backend`: every public backend entry point
+// (`*_block`, `*_par_blocks`, `*_tail_blocks` and their `_inplace` forms) is reachable by users of the traits,
+// not only through the `cipher` crate's own `BlockCtx` / `BlocksCtx`.
+//   variant 0: chunks of ParBlocksSize through `*_par_blocks_inplace`, the rest block by block through `*_block_inplace`
+//   variant 1: chunks through `*_par_blocks(InOut)`, the rest (< ParBlocksSize) through `*_tail_blocks_inplace`
+//   variant 2: first block through `*_block_inplace`, then as variant 0 but the rest through `*_tail_blocks(InOutBuf)`
+//   variant 3: buffer-to-buffer: chunks through `*_par_blocks(InOut from (in, out))`, rest through `*_tail_blocks(InOutBuf)`,
+//              output buffer pre-filled with 0xA5; the result is copied back
+
+use cipher::{BlockModeDecBackend, BlockModeDecClosure, BlockModeEncBackend, BlockModeEncClosure, InOutBuf, ParBlocks};
+
+pub struct DirectEnc<'a, BS: ArraySize> {
+    pub variant: u8,
+    pub buf: &'a mut [Array<u8, BS>],
+}
+impl<BS: cipher::crypto_common::BlockSizes> BlockSizeUser for DirectEnc<'_, BS> {
+    type BlockSize = BS;
+}
+pub struct DirectDec<'a, BS: ArraySize> {
+    pub variant: u8,
+    pub buf: &'a mut [Array<u8, BS>],
+}
+impl<BS: cipher::crypto_common::BlockSizes> BlockSizeUser for DirectDec<'_, BS> {
+    type BlockSize = BS;
+}
+
+macro_rules! direct_body {
+    ($self:ident, $backend:ident, $B:ident, $block_inplace:ident, $par_inplace:ident, $par:ident, $tail_inplace:ident, $tail:ident) => {{
+        let w = <$B::ParBlocksSize as Unsigned>::USIZE;
+        let variant = $self.variant;
+        let mut buf: &mut [Array<u8, Self::BlockSize>] = $self.buf;
+        if variant == 3 {
+            let inp: Vec<Array<u8, Self::BlockSize>> = buf.to_vec();
+            let mut out: Vec<Array<u8, Self::BlockSize>> = buf.iter().map(|_| { let mut a = Array::<u8, Self::BlockSize>::default(); a.iter_mut().for_each(|x| *x = 0xa5); a }).collect();
+            {
+                let io = InOutBuf::new(&inp[..], &mut out[..]).unwrap();
+                let (chunks, tail) = io.into_chunks::<$B::ParBlocksSize>();
+                for c in chunks {
+                    $backend.$par(c);
+                }
+                $backend.$tail(tail);
+            }
+            buf.clone_from_slice(&out);
+            return;
+        }
+        if variant == 2 && !buf.is_empty() {
+            let (first, rest) = buf.split_at_mut(1);
+            $backend.$block_inplace(&mut first[0]);
+            buf = rest;
+        }
+        let n_full = if w == 0 { 0 } else { buf.len() / w * w };
+        let (full, rest) = buf.split_at_mut(n_full);
+        for c in full.chunks_exact_mut(w) {
+            let pb: &mut ParBlocks<$B> = c.try_into().unwrap();
+            match variant {
+                1 => $backend.$par(pb.into()),
+                _ => $backend.$par_inplace(pb),
+            }
+        }
+        match variant {
+            0 => {
+                for b in rest.iter_mut() {
+                    $backend.$block_inplace(b);
+                }
+            }
+            1 => $backend.$tail_inplace(rest),
+            _ => $backend.$tail(rest.into()),
+        }
+    }};
+}
+
+impl<BS: cipher::crypto_common::BlockSizes> BlockModeEncClosure for DirectEnc<'_, BS> {
+    fn call<B: BlockModeEncBackend<BlockSize = BS>>(self, backend: &mut B) {
+        direct_body!(self, backend, B, encrypt_block_inplace, encrypt_par_blocks_inplace, encrypt_par_blocks, encrypt_tail_blocks_inplace, encrypt_tail_blocks)
+    }
+}
+impl<BS: cipher::crypto_common::BlockSizes> BlockModeDecClosure for DirectDec<'_, BS> {
+    fn call<B: BlockModeDecBackend<BlockSize = BS>>(self, backend: &mut B) {
+        direct_body!(self, backend, B, decrypt_block_inplace, decrypt_par_blocks_inplace, decrypt_par_blocks, decrypt_tail_blocks_inplace, decrypt_tail_blocks)
+    }
+}
+
+pub struct DirectKs<'a, BS: ArraySize> {
+    pub variant: u8,
+    pub buf: &'a mut [Array<u8, BS>],
+}
+impl<BS: cipher::crypto_common::BlockSizes> BlockSizeUser for DirectKs<'_, BS> {
+    type BlockSize = BS;
+}
+impl<BS: cipher::crypto_common::BlockSizes> cipher::StreamCipherClosure for DirectKs<'_, BS> {
+    fn call<B: cipher::StreamCipherBackend<BlockSize = BS>>(self, backend: &mut B) {
+        let w = <B::ParBlocksSize as Unsigned>::USIZE;
+        if self.variant == 0 || w == 0 {
+            for b in self.buf.iter_mut() {
+                backend.gen_ks_block(b);
+            }
+            return;
+        }
+        let n_full = self.buf.len() / w * w;
+        let (full, rest) = self.buf.split_at_mut(n_full);
+        for c in full.chunks_exact_mut(w) {
+            let pb: &mut ParBlocks<B> = c.try_into().unwrap();
+            backend.gen_par_ks_blocks(pb);
+        }
+        backend.gen_tail_blocks(rest);
+    }
+}
+
+// ------------------------------------------------------------------------------------------------
 // block-level mode objects
 
 pub trait ModeOps: Sized + Clone + 'static {
@@ -82,6 +190,8 @@ pub trait ModeOps: Sized + Clone + 'static {
     fn block_b2b(&mut self, inp: &[u8], out: &mut [u8]);
     fn blocks(&mut self, buf: &mut [u8]);
     fn blocks_b2b(&mut self, inp: &[u8], out: &mut [u8]) -> bool;
+    /// drive the mode's backend directly with a caller-written closure (`*_with_backend`), see `DirectEnc`
+    fn backend(&mut self, variant: u8, buf: &mut [u8]);
     fn padded(self, msg: &[u8]) -> Option<Vec<u8>>;
     fn oneshot(self, buf: &mut [u8]) -> bool;
     fn oneshot_b2b(self, inp: &[u8], out: &mut [u8]) -> Option<bool>;
@@ -138,6 +248,10 @@ macro_rules! impl_mode_ops {
                 let o = blocks_mut::<<Self as BlockSizeUser>::BlockSize>(out);
                 impl_mode_ops!(@callr $dir, self, blocks_b2b, i, o).is_ok()
             }
+            fn backend(&mut self, variant: u8, buf: &mut [u8]) {
+                let b = blocks_mut::<<Self as BlockSizeUser>::BlockSize>(buf);
+                impl_mode_ops!(@backend $dir, self, variant, b);
+            }
             fn padded(self, msg: &[u8]) -> Option<Vec<u8>> {
                 impl_mode_ops!(@padded $dir, self, msg)
             }
@@ -171,6 +285,8 @@ macro_rules! impl_mode_ops {
     (@call dec, $s:ident, blocks, $($a:expr),*) => { BlockModeDecrypt::decrypt_blocks($s, $($a),*) };
     (@callr enc, $s:ident, blocks_b2b, $($a:expr),*) => { BlockModeEncrypt::encrypt_blocks_b2b($s, $($a),*) };
     (@callr dec, $s:ident, blocks_b2b, $($a:expr),*) => { BlockModeDecrypt::decrypt_blocks_b2b($s, $($a),*) };
+    (@backend enc, $s:ident, $v:ident, $b:ident) => { BlockModeEncrypt::encrypt_with_backend($s, DirectEnc { variant: $v, buf: $b }) };
+    (@backend dec, $s:ident, $v:ident, $b:ident) => { BlockModeDecrypt::decrypt_with_backend($s, DirectDec { variant: $v, buf: $b }) };
     (@padded enc, $s:ident, $m:ident) => { Some(BlockModeEncrypt::encrypt_padded_vec::<Pkcs7>($s, $m)) };
     (@padded dec, $s:ident, $m:ident) => { BlockModeDecrypt::decrypt_padded_vec::<Pkcs7>($s, $m).ok() };
     (@oneshot enc, yes, $s:ident, $b:ident) => {{ AsyncStreamCipher::encrypt($s, $b); true }};
@@ -237,6 +353,11 @@ macro_rules! impl_ofb_block {
                 let o = blocks_mut::<C::BlockSize>(out);
                 let s = &mut self.0;
                 impl_mode_ops!(@callr $dir, s, blocks_b2b, i, o).is_ok()
+            }
+            fn backend(&mut self, variant: u8, buf: &mut [u8]) {
+                let b = blocks_mut::<C::BlockSize>(buf);
+                let s = &mut self.0;
+                impl_mode_ops!(@backend $dir, s, variant, b);
             }
             fn padded(self, msg: &[u8]) -> Option<Vec<u8>> {
                 let s = self.0;
@@ -308,6 +429,14 @@ impl<M: ModeOps> Obj for BlockObj<M> {
                     return bad();
                 }
                 self.m.blocks(&mut b);
+                line(format!("out {}", hex(&b)))
+            }
+            ["backend", v, x] => {
+                let (Ok(v), Some(mut b)) = (v.parse::<u8>(), unhex(x)) else { return bad() };
+                if b.len() % M::MBS != 0 || v > 3 {
+                    return bad();
+                }
+                self.m.backend(v, &mut b);
                 line(format!("out {}", hex(&b)))
             }
             ["blocksb", x, g] => {
@@ -668,6 +797,34 @@ impl<T: CoreKind> Obj for CoreObj<T> {
                 self.c.apply_keystream_blocks(blocks_mut::<T::BlockSize>(&mut b));
                 line(format!("out {}", hex(&b)))
             }
+            ["applyblock", x] => {
+                // the single-block entry point `apply_keystream_block_inout`, in place
+                let Some(mut b) = unhex(x) else { return bad() };
+                if b.len() != bs {
+                    return bad();
+                }
+                let blk: &mut Block<T> = b.as_mut_slice().try_into().unwrap();
+                self.c.apply_keystream_block_inout(blk.into());
+                line(format!("out {}", hex(&b)))
+            }
+            ["applyblockb", x, g] => {
+                let (Some(b), Some(mut o)) = (unhex(x), unhex(g)) else { return bad() };
+                if b.len() != bs || o.len() != bs {
+                    return bad();
+                }
+                let i: &Block<T> = b.as_slice().try_into().unwrap();
+                let ob: &mut Block<T> = o.as_mut_slice().try_into().unwrap();
+                self.c.apply_keystream_block_inout((i, ob).into());
+                line(format!("out {}", hex(&o)))
+            }
+            ["ksdirect", v, n] => {
+                // caller-written closure for `process_with_backend`: variant 0 = every block through `gen_ks_block`,
+                // variant 1 = chunks of ParBlocksSize through `gen_par_ks_blocks`, the rest through `gen_tail_blocks`
+                let (Ok(v), Ok(k)) = (v.parse::<u8>(), n.parse::<usize>()) else { return bad() };
+                let mut buf = vec![0u8; k * bs];
+                self.c.process_with_backend(DirectKs { variant: v, buf: blocks_mut::<T::BlockSize>(&mut buf) });
+                line(format!("out {}", hex(&buf)))
+            }
             ["applyblocksb", x, g] => {
                 let (Some(b), Some(mut o)) = (unhex(x), unhex(g)) else { return bad() };
                 if b.len() % bs != 0 || b.len() != o.len() {
@@ -853,25 +1010,27 @@ impl<K: CtsKind> Obj for CtsObj<K> {
 // ------------------------------------------------------------------------------------------------
 // the toy cipher itself
 
-pub struct ToyObj<BS, W> {
-    c: Toy<BS, W>,
+/// raw block encryption / decryption with the case's cipher (the toy cipher or a logged real cipher)
+pub struct RawObj<C> {
+    c: C,
 }
 
-impl<BS: cipher::crypto_common::BlockSizes + 'static, W: ArraySize + 'static> ToyObj<BS, W> {
+impl<C: BlockCipherEncrypt + BlockCipherDecrypt + KeyInit + Clone + 'static> RawObj<C> {
     pub fn new(key: &[u8]) -> Box<dyn Obj> {
-        Box::new(Self { c: <Toy<BS, W> as KeyInit>::new(key.try_into().unwrap()) })
+        Box::new(Self { c: <C as KeyInit>::new(key.try_into().unwrap()) })
     }
 }
 
-impl<BS: cipher::crypto_common::BlockSizes + 'static, W: ArraySize + 'static> Obj for ToyObj<BS, W> {
+impl<C: BlockCipherEncrypt + BlockCipherDecrypt + KeyInit + Clone + 'static> Obj for RawObj<C> {
     fn boxed_clone(&self) -> Option<Box<dyn Obj>> {
         Some(Box::new(Self { c: self.c.clone() }))
     }
     fn step(&mut self, toks: &[&str]) -> Step {
+        let bs = <C::BlockSize as Unsigned>::USIZE;
         match toks {
             ["E", x] => {
                 let Some(mut b) = unhex(x) else { return bad() };
-                if b.len() != BS::USIZE {
+                if b.len() != bs {
                     return bad();
                 }
                 self.c.encrypt_block((&mut b[..]).try_into().unwrap());
@@ -879,7 +1038,7 @@ impl<BS: cipher::crypto_common::BlockSizes + 'static, W: ArraySize + 'static> Ob
             }
             ["D", x] => {
                 let Some(mut b) = unhex(x) else { return bad() };
-                if b.len() != BS::USIZE {
+                if b.len() != bs {
                     return bad();
                 }
                 self.c.decrypt_block((&mut b[..]).try_into().unwrap());
